@@ -64,6 +64,87 @@ def strip_comments(text):
     return ''.join(out)
 
 
+def apply_ifdefs(text, defines):
+    """evaluate #if/#ifdef/#ifndef/#else/#elif/#endif for the configuration macros in `defines`
+    (dict name -> value or None for undefined); lines of inactive branches and the directives
+    themselves are blanked.  Only directives whose condition mentions a known name are handled."""
+    out = []
+    stack = []  # entries: [known, active_now, any_taken, parent_active]
+    def cur_active():
+        return all(e[1] for e in stack if e[0])
+    def ev(expr):
+        e = expr.strip()
+        m = re.match(r'^defined\s*\(?\s*(\w+)\s*\)?$', e)
+        if m and m.group(1) in defines:
+            return defines[m.group(1)] is not None
+        m = re.match(r'^(\w+)\s*(==|>=|>|!=)\s*(\d+)$', e)
+        if m and m.group(1) in defines:
+            v = defines[m.group(1)]
+            v = int(v) if v is not None else 0
+            return {'==': v == int(m.group(3)), '>=': v >= int(m.group(3)), '>': v > int(m.group(3)), '!=': v != int(m.group(3))}[m.group(2)]
+        m = re.match(r'^(\w+)$', e)
+        if m and m.group(1) in defines:
+            v = defines[m.group(1)]
+            return bool(int(v)) if v is not None else False
+        return None
+    for ln in text.split('\n'):
+        m = re.match(r'^\s*#\s*(ifdef|ifndef|if|elif|else|endif)\b(.*)$', ln)
+        if m:
+            d, rest = m.group(1), m.group(2).strip()
+            if d in ('ifdef', 'ifndef'):
+                nm = rest.split()[0] if rest else ''
+                if nm in defines:
+                    val = defines[nm] is not None
+                    if d == 'ifndef':
+                        val = not val
+                    stack.append([True, val, val])
+                    out.append('')
+                    continue
+                stack.append([False, True, True])
+            elif d == 'if':
+                r = ev(rest)
+                if r is not None:
+                    stack.append([True, r, r])
+                    out.append('')
+                    continue
+                stack.append([False, True, True])
+            elif d == 'elif':
+                if stack and stack[-1][0]:
+                    r = ev(rest)
+                    if r is None:
+                        raise ExtractError('cannot evaluate #elif %s' % rest)
+                    stack[-1][1] = (not stack[-1][2]) and r
+                    stack[-1][2] = stack[-1][2] or r
+                    out.append('')
+                    continue
+            elif d == 'else':
+                if stack and stack[-1][0]:
+                    stack[-1][1] = not stack[-1][2]
+                    stack[-1][2] = True
+                    out.append('')
+                    continue
+            elif d == 'endif':
+                if stack:
+                    e = stack.pop()
+                    if e[0]:
+                        out.append('')
+                        continue
+            out.append(ln if cur_active() else '')
+            continue
+        out.append(ln if cur_active() else '')
+    return '\n'.join(out)
+
+
+CONFIG_DEFINES = {'HAVE_DIRECT_FLOAT_FORMAT': '1', 'HAVE_PPOLL': '1', 'HAVE_PSELECT': '1', 'HAVE_CONTRIB': '1', 'HAVE_TIME_H': '1',
+                  'HAVE_TIMEGM': '1', 'HAVE_CONFIG_H': '1', 'DEBUG_RAW_TRAFFIC': None, 'HAVE_FREEBSD_UFTDI': None, 'HAVE_LINUX_SERIAL': '1',
+                  'HAVE_CFSETSPEED': '1', 'SIMULATE_NON_WORKING_SEND': None, 'HAVE_SSL': '1', 'HAVE_MQTT': '1', 'HAVE_KNX': '1', 'HAVE_KNXD': None,
+                  'DEBUG_RAW_TRAFFIC_HEAD': None, '__CYGWIN__': None, '_WIN32': None}
+
+
+def load_source(path):
+    return apply_ifdefs(strip_comments(open(path).read()), CONFIG_DEFINES)
+
+
 def tokenize(text):
     toks = []
     pos = 0
@@ -328,6 +409,7 @@ def class_members(text, classname):
         elif depth == 0:
             out.append(ch)
     flat = ''.join(out)
+    flat = re.sub(r'\b(public|private|protected)\s*:', ';', flat)
     res = []
     for mm in re.finditer(r'(?:^|;|:)\s*((?:static\s+|const\s+|mutable\s+)*[A-Za-z_][\w:<>,\*\s]*?[\s\*])(m_\w+|s_\w+)\s*(\[[^\]]*\])?\s*(?:=\s*[^;]+)?;', flat, re.M):
         res.append((re.sub(r'\s+', ' ', mm.group(1)).strip(), mm.group(2), mm.group(3) or ''))
@@ -410,9 +492,9 @@ class Rewriter:
                     ty, nm = m.group(1).strip(), m.group(2)
                     if ty == '':  # unnamed parameter
                         ty, nm = nm, '_unused%d' % len(plist)
-                    ty = self.map_type(ty)
                     byval = self.cfg.get('byval_as_ptr', {})
-                    base = re.sub(r'\bconst\b', '', ty).strip()
+                    base = re.sub(r'\bconst\b', '', ty).replace('std::', '').strip()
+                    ty = self.map_type(ty)
                     if base in byval:
                         plist.append('const %s* %s' % (byval[base], nm))
                         refs[nm] = byval[base]
@@ -873,7 +955,7 @@ def extract_function(repo, spec, cfg, rw=None):
     inline_class= for header inline methods, loops={k:text}, anchors=[...], static=bool)"""
     path = os.path.join(repo, spec['file'])
     raw = open(path).read()
-    text = strip_comments(raw)
+    text = apply_ifdefs(strip_comments(raw), CONFIG_DEFINES)
     if spec.get('inline_class'):
         fn = find_inline_method(text, spec['inline_class'], spec['name'], spec.get('nth', 0), spec.get('sig'))
     else:
